@@ -14,6 +14,18 @@ def cmapOfGoMap : GoVal → Option CMap
       | _ => none)
   | _ => none
 
+/-- the same for maps the library only encodes or looks up at labels 1, 4, 5, 6: a label of another Go
+    integer kind is invisible to the library's `m[iana.X]` look-ups, which is harmless (and modelled) as long
+    as it is none of those labels -/
+def cmapOfGoMapLoose : GoVal → Option CMap
+  | .map kvs => kvs.mapM (fun kv =>
+      match kv.1 with
+      | .int .int v => some (Label.int v, kv.2)
+      | .int _ v => if v ∈ [1, 4, 5, 6] then none else some (Label.int v, kv.2)
+      | .str s => some (Label.text s, kv.2)
+      | _ => none)
+  | _ => none
+
 def splitBar (a : List String) : List String × List String :=
   (a.takeWhile (· ≠ "|"), (a.dropWhile (· ≠ "|")).drop 1)
 
